@@ -5,11 +5,17 @@
    C05_exposure_is_add_disperser), `step_forward SEI L s` is the latency
    progression with the SIMULATION step index s; spread steps are any
    increasing subsequence of simulation steps (seasonal gaps).
+   The last clause - SEI with L = 0 follows exactly the SI trajectory for the same
+   seed - is also proved for whole model steps and runs of any length
+   (C05_L0_step, C05_L0_snapshots, C05_L0_run; L0SimProps.v): a two-run simulation
+   proof over the state-and-tape monad, for every configuration, landscape, set of
+   enabled features and tape (the tape is the model's "same seed": both runs consume
+   the same random outcomes), both entry points.
    Tie: bin/check C05 (cohort rasters after every action against the extracted
    model; SEI with L = 0 against SI with the same seed, implementation against
    implementation). *)
 From Coq Require Import ZArith QArith List.
-From Pops Require Import Err Rounding CellDefs CellProps LatencyProps.
+From Pops Require Import Err Rounding CellDefs CellProps LatencyProps LandDefs ModelDefs L0SimProps.
 Import ListNotations.
 Local Open Scope Z_scope.
 
@@ -92,6 +98,59 @@ Theorem C05_L0_equals_SI : forall k s c init y, 0 <= s -> cE c = [0] -> cM c = i
     cE c_si = cE c /\ cTE c_si = cTE c /\ c_si = c_sei.
 Proof. exact sei_L0_is_si. Qed.
 Print Assumptions C05_L0_equals_SI.
+
+(* ... and a whole model step of SEI with latency 0 ends in exactly the world the SI
+   step ends in, with the same remaining tape, or fails with the same error;
+   m_pair: the two configurations differ only in the model type (and latency 0);
+   zeroE: one empty exposed cohort per cell; mort_cohorts: a non-empty mortality
+   tracker of uniform length (without it the SEI step is undefined behaviour while
+   the SI step is not: C05_L0_needs_mortality_cohort) *)
+Theorem C05_L0_step : forall nm m_si m_sei inp step w t,
+  m_pair m_si m_sei -> zeroE w -> mort_cohorts nm w ->
+  match fst (run_step m_sei inp step w t), fst (run_step m_si inp step w t) with
+  | Ok (_, w1, t1), Ok (_, w2, t2) => w1 = w2 /\ t1 = t2 /\ zeroE w1 /\ mort_cohorts nm w1
+  | Err e1, Err e2 => e1 = e2
+  | _, _ => False
+  end.
+Proof. exact L0_step_agrees_strong. Qed.
+Print Assumptions C05_L0_step.
+
+(* the states after every individual action agree too, except directly after
+   dispersal, where the SEI cells hold as exposed what the SI cells hold as infected *)
+Theorem C05_L0_snapshots : forall nm m_si m_sei inp step w t,
+  m_pair m_si m_sei -> zeroE w -> mort_cohorts nm w ->
+  Forall2 snap (snd (run_step m_sei inp step w t)) (snd (run_step m_si inp step w t)).
+Proof. exact L0_step_snapshots. Qed.
+Print Assumptions C05_L0_snapshots.
+
+Theorem C05_L0_run : forall nm m_si m_sei inp weather tapes step w,
+  m_pair m_si m_sei -> zeroE w -> mort_cohorts nm w ->
+  run_many m_sei inp weather tapes step w = run_many m_si inp weather tapes step w /\
+  (forall w', run_many m_si inp weather tapes step w = Ok w' -> zeroE w' /\ mort_cohorts nm w').
+Proof. exact L0_run_agrees. Qed.
+Print Assumptions C05_L0_run.
+
+Theorem C05_L0_step_raster_entry : forall nm m_si m_sei inp step w t,
+  m_pair m_si m_sei -> zeroE w -> mort_cohorts nm w ->
+  match fst (run_step_rasters m_sei inp step w t), fst (run_step_rasters m_si inp step w t) with
+  | Ok (_, w1, t1), Ok (_, w2, t2) => w1 = w2 /\ t1 = t2 /\ zeroE w1 /\ mort_cohorts nm w1
+  | Err e1, Err e2 => e1 = e2
+  | _, _ => False
+  end.
+Proof. exact L0_step_rasters_agrees. Qed.
+Print Assumptions C05_L0_step_raster_entry.
+
+Theorem C05_L0_needs_mortality_cohort :
+  m_pair (demo_model SI) (demo_model SEI) /\ zeroE bad_w /\
+  fst (run_step (demo_model SEI) demo_inp 0 bad_w []) = Err UB_OutOfBounds /\
+  exists tr w', fst (run_step (demo_model SI) demo_inp 0 bad_w []) = Ok (tr, w', []).
+Proof. exact mort_cohorts_needed. Qed.
+Print Assumptions C05_L0_needs_mortality_cohort.
+
+Example C05_L0_nonvacuous :
+  m_pair (demo_model SI) (demo_model SEI) /\ zeroE demo_w /\ mort_cohorts 0 demo_w.
+Proof. exact demo_hypotheses. Qed.
+Print Assumptions C05_L0_nonvacuous.
 
 Example C05_nonvacuous :
   let c := mkcell 50 [0; 0; 0] 1 0 0 [0] 0 51 in
